@@ -64,6 +64,8 @@ pub fn setup(prop: &str, tier: &str, variant: u64) -> Setup {
             p.nested = 25;
             p.w_syncall = 4;
             p.w_gc = 1;
+            // one map insert in eight re-writes the value the key shows (a new entry with equal content must be made)
+            p.same_pct = 12;
         }
         "C06" => {
             m.prop = "C06";
